@@ -59,7 +59,7 @@ func (p c01Pacer) schedule(t int64) float64 {
 	case "constant":
 		return float64(p.Freq) * (float64(t) / float64(p.Per))
 	case "sine":
-		m := float64(p.Freq) / float64(p.Per)      // hits per ns
+		m := float64(p.Freq) / float64(p.Per)       // hits per ns
 		a := float64(p.AmpFreq) / float64(p.AmpPer) // hits per ns
 		per := float64(p.Period)
 		// phase reduced with integer arithmetic so that long attacks keep precision
